@@ -466,3 +466,41 @@ class _Wrap1:
         if k == 0:
             return self.x
         raise Unsupported("query_radius with several query points")
+
+
+class Tok:
+    def __init__(self, ttype, pos):
+        self.token_type, self.pos = ttype, pos
+        self.value = ("token-value", pos)
+        self.location = ("token-location", pos)
+
+
+class SymStack(_Generic):
+    """a list used as a stack/queue of tokens: symbolic length n, token type at position k is T(k)"""
+
+    def __init__(self, name="tokens"):
+        self.n = SV(z3.Int(f"{name}_len"))
+        ctx().assume(self.n.t >= 0)
+        self.T = z3.Function(f"{name}_type", z3.IntSort(), z3.IntSort())
+        self.popped = []
+
+    def __sym_len__(self):
+        return self.n
+
+    def _at(self, k):
+        kt = to_z3(k)
+        if isinstance(k, int) and k < 0:
+            kt = self.n.t + k
+        ctx().oblige("safe.index-in-range", z3.And(kt >= 0, kt < self.n.t), kind="safe", detail="list index on the token queue")
+        return Tok(SV(self.T(kt)), kt)
+
+    def __getitem__(self, k):
+        return self._at(k)
+
+    def pop(self, *a):
+        if a:
+            raise Unsupported("pop(index)")
+        t = self._at(-1)
+        self.n = SV(self.n.t - 1)
+        self.popped.append(t)
+        return t
